@@ -103,6 +103,24 @@ class Filter(collections.namedtuple('Filter', ['property', 'op', 'value'])):
                 filter_value = stix2.utils.parse_into_datetime(self.value)
             except ValueError:
                 filter_value = self.value
+        elif isinstance(self.value, tuple) and self.op == "in" and (
+            isinstance(stix_obj_property, datetime) or (
+                isinstance(stix_obj_property, str) and
+                _TIMESTAMP_RE.match(stix_obj_property)
+            )
+        ):
+            # A list of timestamps: compare each of them as an instant too.
+            try:
+                filter_value = tuple(
+                    stix2.utils.parse_into_datetime(v)
+                    if isinstance(v, str) and _TIMESTAMP_RE.match(v) else v
+                    for v in self.value
+                )
+                stix_obj_property = stix2.utils.parse_into_datetime(
+                    stix_obj_property,
+                )
+            except ValueError:
+                filter_value = self.value
         else:
             filter_value = self.value
 
